@@ -38,6 +38,7 @@ def call(ex, st, fn, args, kw, node):
             if isinstance(v, Sym) and v.ty.kind in ("str", "int", "bool", "dec", "real"): yield st, False; return
             if isinstance(v, (str, int)): yield st, False; return
         if tn == "int":
+            if isinstance(v, Sym) and v.ty.kind == "opt" and v.ty.args[0].kind == "int": yield st, Sym(BOOL, z3.Not(sort_of(v.ty).is_none(v.z))); return
             if isinstance(v, Sym): yield st, v.ty.kind == "int"; return
             yield st, isinstance(v, int); return
         if tn == "str":
